@@ -135,7 +135,6 @@ Section RegStep.
     - nsid.
     - intros H; discriminate.
     - unfold in_window. rewrite Hpc. discriminate.
-    - exact Logic.I.
   Qed.
 
   Lemma step_seqerr : forall y i, inv y -> inv (fst (ystep fx c st y (VSeqErr i))).
@@ -209,7 +208,8 @@ Section RegStep.
       destruct fx eqn:Efx; cbn [fst].
       + apply (rinv_leave true c st r0 y _ i t (mkT (t_n t) PDeact2 (t_lp t) (t_fc t + 1))); try assumption; try reflexivity.
         * cbn [set_task set_ts set_entry y_ts]. rewrite E1. reflexivity.
-        * exact Logic.I.
+        * cbn [set_task set_ts set_entry y_entry]. rewrite E2, (v_own _ _ _ _ y I i t Hi Hown).
+          cbn [drop_own]. rewrite Nat.eqb_refl. reflexivity.
       + (* status notRunning written, the entry still there *)
         destruct I as [H1 H2 H3 H4 H5 H6].
         constructor; cbn [set_task set_ts y_ts y_entry y_ns y_rcd y_acked]; rewrite ?E1, ?E2, ?E3, ?E4; try assumption.
@@ -239,7 +239,6 @@ Section RegStep.
     destruct (t_pc t) eqn:Hpc; try exact I. cbn [fst].
     apply (rinv_leave fx c st r0 y _ i t (with_pc t PDeact2)); try assumption; try reflexivity.
     - unfold owner. rewrite Hpc. reflexivity.
-    - exact Logic.I.
   Qed.
 
   Lemma step_deact : forall y i, inv y -> inv (fst (ystep fx c st y (VDeact i))).
@@ -250,17 +249,16 @@ Section RegStep.
     - nsid.
     - intros H; discriminate.
     - unfold in_window. rewrite Hpc. discriminate.
-    - exact Logic.I.
   Qed.
 
   (** * Close, exit, restart *)
   Lemma step_close : forall y, inv y -> inv (fst (ystep fx c st y VClose)).
   Proof.
-    intros y I. cbn [ystep]. destruct (y_entry y) as [n|]; [|exact I].
+    intros y I. cbn [ystep]. destruct (y_entry y) as [n|] eqn:He; [|exact I].
     destruct (nth_error (y_ns y) n) as [f|] eqn:Hf; [|exact I].
     destruct (n_closed f); cbn [fst].
-    - apply (rinv_same_tasks fx c st r0 y); try reflexivity; [exact I|nsid].
-    - apply (rinv_same_tasks fx c st r0 y); try reflexivity; [exact I|].
+    - apply (rinv_same_tasks fx c st r0 y); try reflexivity; try (symmetry; exact He); [exact I|nsid].
+    - apply (rinv_same_tasks fx c st r0 y); try reflexivity; try (symmetry; exact He); [exact I|].
       cbn [set_notif set_ns y_ns]. apply (ns_keep_upd _ _ f); [exact Hf|reflexivity].
   Qed.
 
